@@ -39,10 +39,10 @@ let hex_of_n (v : coq_N) : string =
         let i = d * 4 + k in
         v := !v * 2 + (if i < nb && bs.(i) then 1 else 0)
       done;
-      Stdlib.Buffer.add_char buf "0123456789abcdef".[!v]
+      Stdlib.Buffer.add_char buf (Stdlib.String.get "0123456789abcdef" (!v))
     done; Stdlib.Buffer.contents buf
 let z_of_string (s : string) : coq_Z =
-  if Stdlib.String.length s > 0 && s.[0] = '-' then
+  if Stdlib.String.length s > 0 && (Stdlib.String.get s (0)) = '-' then
     (match n_of_hex (Stdlib.String.sub s 1 (Stdlib.String.length s - 1)) with N0 -> Z0 | Npos p -> Zneg p)
   else (match n_of_hex s with N0 -> Z0 | Npos p -> Zpos p)
 let string_of_z = function Z0 -> "0" | Zpos p -> hex_of_n (Npos p) | Zneg p -> "-" ^ hex_of_n (Npos p)
@@ -50,7 +50,7 @@ let string_of_z = function Z0 -> "0" | Zpos p -> hex_of_n (Npos p) | Zneg p -> "
 let bytes_of_hex (s : string) : coq_N list =
   if s = "-" then [] else
   let l = Stdlib.String.length s / 2 in
-  Stdlib.List.init l (fun i -> n_of_int (hexdigit s.[2*i] * 16 + hexdigit s.[2*i+1]))
+  Stdlib.List.init l (fun i -> n_of_int (hexdigit (Stdlib.String.get s (2*i)) * 16 + hexdigit (Stdlib.String.get s (2*i+1))))
 let hex_of_bytes (b : coq_N list) : string =
   if b = [] then "-" else
   Stdlib.String.concat "" (Stdlib.List.map (fun x -> let i = int_of_n x in
@@ -71,7 +71,7 @@ let show_status = function PlainFrame.Ok -> "ok" | PlainFrame.Errored -> "error"
 let sym_of_text (s : string) : coq_N list =
   if s = "-" then [] else
   Stdlib.List.concat (Stdlib.List.map (fun tok ->
-    if Stdlib.String.length tok > 0 && tok.[0] = 's' then
+    if Stdlib.String.length tok > 0 && (Stdlib.String.get tok (0)) = 's' then
       (match Stdlib.String.split_on_char 'x' (Stdlib.String.sub tok 1 (Stdlib.String.length tok - 1)) with
        | [v; c] -> Stdlib.List.init (int_of_string c) (fun _ -> n_of_int (int_of_string v))
        | _ -> failwith "sym token")
@@ -171,6 +171,108 @@ let parse_op (w : string) : NoiseFrame.op =
 let show_nstate = function NoiseFrame.NHello -> "hello" | NoiseFrame.NHandshake -> "handshake"
   | NoiseFrame.NReady -> "ready" | NoiseFrame.NClosed -> "closed"
 
+(* ---- connection model: labels in, projections out ---- *)
+let z_of_int (i : int) : coq_Z = if i = 0 then Z0 else if i > 0 then Zpos (pos_of_int i) else Zneg (pos_of_int (-i))
+let int_of_z = function Z0 -> 0 | Zpos p -> int_of_pos p | Zneg p -> - (int_of_pos p)
+let lerr_names = [ "Conn", Conn.LConn; "SocketClosed", Conn.LSocketClosed; "PingFailed", Conn.LPingFailed;
+  "Protocol", Conn.LProtocol; "RequiresEncryption", Conn.LRequiresEncryption; "Handshake", Conn.LHandshake;
+  "InvalidKey", Conn.LInvalidKey; "BadName", Conn.LBadName; "InvalidAuth", Conn.LInvalidAuth; "Timeout", Conn.LTimeout;
+  "Resolve", Conn.LResolve; "Socket", Conn.LSocket; "ReadFailed", Conn.LReadFailed; "NotEstablished", Conn.LNotEstablished;
+  "Cancelled", Conn.LCancelled; "Unhandled", Conn.LUnhandled ]
+let raw_names = [ "OSError", Conn.ROSError; "Reset", Conn.RReset; "Attribute", Conn.RAttribute; "Index", Conn.RIndex; "Other", Conn.ROther ]
+let rassoc v l = fst (Stdlib.List.find (fun (_, x) -> x = v) l)
+let show_exc = function
+  | Conn.Lib e -> "L." ^ rassoc e lerr_names | Conn.Raw r -> "R." ^ rassoc r raw_names
+  | Conn.Interrupted -> "I" | Conn.CancelledErr -> "C" | Conn.PyTimeout -> "T" | Conn.RuntimeErr -> "RT"
+let parse_exc (s : string) : Conn.exc =
+  if s = "I" then Conn.Interrupted else if s = "C" then Conn.CancelledErr else if s = "T" then Conn.PyTimeout
+  else if s = "RT" then Conn.RuntimeErr
+  else if (Stdlib.String.get s (0)) = 'L' then Conn.Lib (Stdlib.List.assoc (Stdlib.String.sub s 2 (Stdlib.String.length s - 2)) lerr_names)
+  else Conn.Raw (Stdlib.List.assoc (Stdlib.String.sub s 2 (Stdlib.String.length s - 2)) raw_names)
+let parse_oexc s = if s = "ok" || s = "none" then None else Some (parse_exc s)
+let parse_tid (s : string) : Conn.tid =
+  match (Stdlib.String.get s (0)) with 'S' -> Conn.TStart | 'F' -> Conn.TFinish | 'D' -> Conn.TDisc
+  | _ -> Conn.TCall (nat_of_int (int_of_string (Stdlib.String.sub s 1 (Stdlib.String.length s - 1))))
+let show_tid = function Conn.TStart -> "S" | Conn.TFinish -> "F" | Conn.TDisc -> "D" | Conn.TCall n -> "C" ^ string_of_int (int_of_nat n)
+let parse_nlist (s : string) : coq_N list = if s = "" || s = "-" then [] else
+  Stdlib.List.map (fun x -> n_of_int (int_of_string x)) (Stdlib.String.split_on_char ',' s)
+let parse_pred (s : string) : Conn.pred =
+  if s = "any" then Conn.PAny else
+  match Stdlib.String.split_on_char '=' s with
+  | ["is"; t] -> Conn.PTyIs (n_of_int (int_of_string t)) | ["not"; t] -> Conn.PTyNot (n_of_int (int_of_string t))
+  | ["tag"; t] -> Conn.PTag (n_of_int (int_of_string t)) | _ -> failwith ("pred " ^ s)
+let parse_item (s : string) : Conn.ditem =
+  match Stdlib.String.split_on_char '.' s with
+  | ["f"; ty; v; tag; maj; nk; ip] ->
+    Conn.DFrame { Conn.m_ty = n_of_int (int_of_string ty); m_valid = (v = "1"); m_tag = n_of_int (int_of_string tag);
+                  m_major = n_of_int (int_of_string maj);
+                  m_name = (match nk with "e" -> Conn.NameEmpty | "x" -> Conn.NameExpected | _ -> Conn.NameOther);
+                  m_invalid_password = (ip = "1") }
+  | ["bp"; r] -> Conn.DBadPreamble (r = "1")
+  | _ -> failwith ("item " ^ s)
+let parse_timer (s : string) : Conn.timer_kind =
+  match s with "ping" -> Conn.TkPing | "pong" -> Conn.TkPong | "hs" -> Conn.TkHandshake | "conn" -> Conn.TkConnect
+  | "dwait" -> Conn.TkDiscWait
+  | _ -> Conn.TkCall (nat_of_int (int_of_string (Stdlib.String.sub s 1 (Stdlib.String.length s - 1))))
+let parse_label (w : string) : Conn.label =
+  match Stdlib.String.split_on_char ':' w with
+  | ["start"] -> Conn.LStart | ["finish"; l] -> Conn.LFinish (l = "1") | ["disc"] -> Conn.LDisconnect | ["force"] -> Conn.LForce
+  | ["call"; snd; tys; ap; st; tmo] -> Conn.LCallStart (parse_nlist snd, parse_nlist tys, parse_pred ap, parse_pred st, z_of_int (int_of_string tmo))
+  | ["send"; tys] -> Conn.LSend (parse_nlist tys) | ["cancel"; t] -> Conn.LCancel (parse_tid t)
+  | ["sub"; ty; u] -> Conn.LSub (n_of_int (int_of_string ty), nat_of_int (int_of_string u))
+  | ["unsub"; ty; u] -> Conn.LUnsub (n_of_int (int_of_string ty), nat_of_int (int_of_string u))
+  | ["resolved"; r; g] -> Conn.LResolveDone (parse_oexc r, nat_of_int (int_of_string g))
+  | ["tcp"; r] -> Conn.LTcpDone (parse_oexc r)
+  | ["made"] -> Conn.LMade | ["madew"] -> Conn.LMadeWaiter | ["hready"; r] -> Conn.LHelperReady (parse_oexc r)
+  | ["data"; items] -> Conn.LData (if items = "" then [] else Stdlib.List.map parse_item (Stdlib.String.split_on_char ';' items))
+  | ["eof"] -> Conn.LEof | ["lost"; e] -> Conn.LLost (parse_oexc e)
+  | ["wfail"; b] -> Conn.LWriteFails (b = "1") | ["adv"; t] -> Conn.LAdvance (z_of_int (int_of_string t))
+  | ["wake"; t] -> Conn.LWake (parse_tid t) | ["intr"; k] -> Conn.LIntr (k = "s") | ["dwd"] -> Conn.LDiscWaitDone
+  | ["clost"] -> Conn.LConnLostCb | ["timer"; k] -> Conn.LTimer (parse_timer k)
+  | _ -> failwith ("label " ^ w)
+let parse_scripts (s : string) =
+  if s = "-" then [] else
+  Stdlib.List.map (fun e -> match Stdlib.String.split_on_char '=' e with
+    | [u; acts] -> (nat_of_int (int_of_string u),
+        Stdlib.List.map (fun a -> match Stdlib.String.split_on_char '.' a with
+          | ["sub"; ty; u2] -> Conn.ASub (n_of_int (int_of_string ty), nat_of_int (int_of_string u2))
+          | ["unsub"; ty; u2] -> Conn.AUnsub (n_of_int (int_of_string ty), nat_of_int (int_of_string u2))
+          | _ -> failwith "action") (Stdlib.String.split_on_char '+' acts))
+    | _ -> failwith "script") (Stdlib.String.split_on_char ';' s)
+let show_cs = function Conn.Init -> "INIT" | Conn.SockOpen -> "SOCK" | Conn.HsDone -> "HS" | Conn.Connected -> "CONN" | Conn.Closed -> "CLOSED"
+let show_oz = function None -> "-" | Some z -> string_of_int (int_of_z z)
+let show_hid = function Conn.HDisc -> "disc" | Conn.HPing -> "ping" | Conn.HTime -> "time"
+  | Conn.HCall n -> "c" ^ string_of_int (int_of_nat n) | Conn.HUser n -> "u" ^ string_of_int (int_of_nat n)
+let b01 b = if b then "1" else "0"
+let show_proj (c : Conn.conn) : string =
+  let hs = Stdlib.List.sort compare (Stdlib.List.map (fun (ty, h) -> Printf.sprintf "%d.%s" (int_of_n ty) (show_hid h)) c.Conn.handlers) in
+  Printf.sprintf "%s,%s%s,f=%s,x=%s,pp=%s,ping=%s,pong=%s,sf=%s,ff=%s,h=%s,s=%s,w=%d,os=%s,H=%s"
+    (show_cs c.Conn.cs) (b01 c.Conn.is_connected) (b01 c.Conn.handshake_complete)
+    (match c.Conn.fatal with None -> "-" | Some e -> show_exc e) (b01 c.Conn.expected_disconnect) (b01 c.Conn.send_pending_ping)
+    (show_oz c.Conn.ping_timer) (show_oz c.Conn.pong_timer)
+    (match c.Conn.start_fut with Conn.FPending -> "P" | _ -> "-") (match c.Conn.finish_fut with Conn.FPending -> "P" | _ -> "-")
+    (match c.Conn.helper with Conn.HOpen -> "1" | _ -> "0") (b01 c.Conn.socket)
+    (Stdlib.List.length c.Conn.waiters) (b01 c.Conn.on_stop_armed) (Stdlib.String.concat "+" hs)
+let show_tres = function Conn.TOk -> "ok" | Conn.TRaise e -> show_exc e
+let show_obs = function
+  | Conn.OWrite tys -> "W" ^ Stdlib.String.concat "." (Stdlib.List.map (fun t -> string_of_int (int_of_n t)) tys)
+  | Conn.ODeliver (u, m) -> Printf.sprintf "D%d.%d.%d" (int_of_nat u) (int_of_n m.Conn.m_ty) (int_of_n m.Conn.m_tag)
+  | Conn.OStop b -> "STOP" ^ b01 b | Conn.OHelperClose -> "HC" | Conn.OSocketClose -> "SC" | Conn.OTransportClose -> "TC"
+  | Conn.OTaskDone (t, r) -> Printf.sprintf "T%s=%s" (show_tid t) (show_tres r)
+  | Conn.ORaise e -> "X" ^ show_exc e
+let run_conn (noise : bool) (expect : bool) (ka : int) (scr : string) (labels : string list) : string =
+  let c0 = Conn.init noise expect (z_of_int ka) (parse_scripts scr) in
+  let buf = Stdlib.Buffer.create 256 in
+  let rec go c ls k = match ls with
+    | [] -> ()
+    | w :: r ->
+      (match Conn.step c (parse_label w) with
+       | None -> Stdlib.Buffer.add_string buf (Printf.sprintf "|!disabled@%d:%s" k w)
+       | Some (c1, o) ->
+         Stdlib.Buffer.add_string buf (Printf.sprintf "|%s#%s" (show_proj c1) (Stdlib.String.concat "," (Stdlib.List.map show_obs o)));
+         go c1 r (k + 1)) in
+  go c0 labels 0; Stdlib.Buffer.contents buf
+
 let handle (line : string) : string =
   match words line with
   | "venc" :: v :: [] -> hex_of_bytes (Varint.enc (n_of_hex v))
@@ -196,6 +298,7 @@ let handle (line : string) : string =
       (Stdlib.String.concat "|" (Stdlib.List.map (fun l -> Stdlib.String.concat "," (Stdlib.List.map show_nevent l)) evs))
       (show_nstate s.NoiseFrame.s_state) (text_of_sym s.NoiseFrame.s_buffer)
       (hex_of_n s.NoiseFrame.s_dec_nonce) (hex_of_n s.NoiseFrame.s_enc_nonce)
+  | "conn" :: nz :: ex :: ka :: scr :: labels -> run_conn (nz = "1") (ex = "1") (int_of_string ka) scr labels
   | "spec_plain" :: b :: [] ->
     let bs = bytes_of_hex b in
     (match WireSpec.spec_decode_plain (nat_of_int (Stdlib.List.length bs + 1)) bs with
